@@ -67,7 +67,17 @@ func checkC16(p *Prog, r *Report) {
 			} else {
 				rTab.Unproven(fnName(fp)+":ReplaceAll", posOf(c), "substitution with non-constant operands")
 			}
-		case "strings.Replace", "(*strings.Replacer).Replace", "strings.Map":
+		case "(*strings.Replacer).Replace", "(*strings.Replacer).WriteString":
+			/* A replacer built once from constant pairs. */
+			prs, ok := replacerPairs(p, c.Common().Args[0])
+			if !ok {
+				rTab.Unproven(fnName(fp)+":"+calleeName(c.Common()), posOf(c), "the replacer is not built by strings.NewReplacer from constant pairs (once, in a package variable or in this call)")
+				return
+			}
+			for k := 0; k+1 < len(prs); k += 2 {
+				goPairs = append(goPairs, pair{prs[k], prs[k+1]})
+			}
+		case "strings.Replace", "strings.Map":
 			rTab.Unproven(fnName(fp)+":"+calleeName(c.Common()), posOf(c), "substitution idiom not understood")
 		}
 		if sc := c.Common().StaticCallee(); nil != sc && "AppendEncode" == sc.Name() {
@@ -157,7 +167,7 @@ func checkC16(p *Prog, r *Report) {
 	/* Substitutions are applied to the encoded text. */
 	if nil == enc {
 		rName.Bad(fnName(fp)+":encode", fp.Pos(), "the script is not uuencoded with uu.AppendEncode")
-	} else if !isNilConst(enc.Common().Args[0]) {
+	} else if !isNilConst(enc.Common().Args[0]) && !isEmptyFreshSlice(enc.Common().Args[0]) {
 		rName.Bad(fnName(fp)+":encode", posOf(enc), "AppendEncode is given a destination other than nil")
 	} else {
 		rName.OK(fnName(fp)+":encode", posOf(enc), "uu.AppendEncode(nil, []byte(perl))")
@@ -260,7 +270,9 @@ func checkC16(p *Prog, r *Report) {
 		if !ok || !isNilConst(retVal(ret, 1)) {
 			return
 		}
-		for _, x := range valueRoots(retVal(ret, 0), func(n string) bool { return "(*bytes.Buffer).Bytes" == n || "fmt.Sprintf" == n }) {
+		for _, x := range valueRoots(retVal(ret, 0), func(n string) bool {
+			return "(*bytes.Buffer).Bytes" == n || "fmt.Sprintf" == n || "fmt.Appendf" == n || "fmt.Append" == n || "fmt.Appendln" == n
+		}) {
 			switch x.Kind {
 			case "alloc", "const", "param":
 			case "call":
@@ -378,6 +390,9 @@ func checkCleanPerl(p *Prog, ru *Rule, cp *ssa.Function) {
 				}
 			}
 		case *ssa.Slice:
+			if copiedOnly(x) {
+				continue /* a copy of part of the lines, e.g. for the lead comments */
+			}
 			bad++
 			ru.Bad(c+":reslice", posOf(x), "the line slice is re-sliced: lines are dropped from the program text (or its line numbers shift)")
 		case *ssa.Call:
@@ -440,6 +455,10 @@ func checkCleanPerl(p *Prog, ru *Rule, cp *ssa.Function) {
 				}
 			}
 			if nil == guard {
+				if commentPrefixLoop(cp, split, ia, st) {
+					ru.OK(c+":leading-run-only", posOf(st), "blanks indices below slices.IndexFunc(lines, not-a-comment): exactly the leading run of comment lines")
+					continue
+				}
 				ru.Bad(c+":blank-guard", posOf(st), "a line is blanked without having been tested to start with '#'")
 				continue
 			}
@@ -578,4 +597,250 @@ func checkFilterFeed(p *Prog, r *Report, ru *Rule) {
 	if n < 3 {
 		ru.Unproven("filter-call-sites", token.NoPos, "%d calls handing a reader to a filter found; at least 3 expected (two fromReader callers and the filter call)", n)
 	}
+}
+
+// isEmptyFreshSlice: make([]T, 0[, cap]) made right here.
+func isEmptyFreshSlice(v ssa.Value) bool {
+	ms, ok := v.(*ssa.MakeSlice)
+	if !ok {
+		return false
+	}
+	k, ok := constInt(ms.Len)
+	return ok && 0 == k
+}
+
+// replacerPairs returns the constant old/new pairs of the *strings.Replacer
+// v: a direct strings.NewReplacer call, or a package variable of the module
+// initialised with one and never reassigned.
+func replacerPairs(p *Prog, v ssa.Value) ([]string, bool) {
+	v = resolveCell(v)
+	call, _ := v.(*ssa.Call)
+	if nil == call {
+		u, ok := v.(*ssa.UnOp)
+		if !ok || token.MUL != u.Op {
+			return nil, false
+		}
+		g, ok := u.X.(*ssa.Global)
+		if !ok || nil == g.Pkg || !strings.HasPrefix(g.Pkg.Pkg.Path(), ModPath) {
+			return nil, false
+		}
+		n := 0
+		scan := func(fn *ssa.Function) {
+			eachInstr(fn, func(i ssa.Instruction) {
+				if st, ok := i.(*ssa.Store); ok && st.Addr == ssa.Value(g) {
+					n++
+					call, _ = st.Val.(*ssa.Call)
+				}
+			})
+		}
+		if ini := g.Pkg.Func("init"); nil != ini {
+			scan(ini)
+		}
+		for _, fn := range p.Funcs() {
+			scan(fn)
+		}
+		if 1 != n {
+			return nil, false
+		}
+	}
+	if nil == call || "strings.NewReplacer" != calleeName(call.Common()) {
+		return nil, false
+	}
+	els := variadicElems(call.Common())
+	if 0 == len(els) || 0 != len(els)%2 {
+		return nil, false
+	}
+	out := make([]string, len(els))
+	/* variadicElems is in referrer order; recover the index order. */
+	sl, _ := call.Common().Args[len(call.Common().Args)-1].(*ssa.Slice)
+	if nil == sl {
+		return nil, false
+	}
+	al, _ := sl.X.(*ssa.Alloc)
+	if nil == al {
+		return nil, false
+	}
+	els2, ok := literalElems(al)
+	if !ok {
+		return nil, false
+	}
+	for k := int64(0); k < int64(len(els2)); k++ {
+		s, ok := constString(stripConv(els2[k], false))
+		if !ok {
+			return nil, false
+		}
+		out[k] = s
+	}
+	return out, true
+}
+
+// copiedOnly: every use of the sub-slice x reads it or copies it; nothing
+// derived from it can stand in for the line slice itself.
+func copiedOnly(x *ssa.Slice) bool {
+	ok := true
+	for _, ref := range *x.Referrers() {
+		switch r := ref.(type) {
+		case *ssa.DebugRef:
+		case *ssa.Call:
+			if bi, isB := r.Common().Value.(*ssa.Builtin); isB && "len" == bi.Name() {
+				continue
+			}
+			switch calleeName(r.Common()) {
+			case "slices.Clone", "strings.Join":
+				continue
+			}
+			if strings.HasPrefix(calleeName(r.Common()), "slices.Clone[") {
+				continue
+			}
+			ok = false
+		case *ssa.IndexAddr:
+			for _, r2 := range *r.Referrers() {
+				if st, isSt := r2.(*ssa.Store); isSt && st.Addr == ssa.Value(r) {
+					ok = false
+				}
+			}
+		default:
+			ok = false
+		}
+	}
+	return ok
+}
+
+// commentPrefixLoop: the blanking store st (at index address ia of the line
+// slice) runs for i in [0, n) where n is slices.IndexFunc(lines, f), or
+// len(lines) when that is -1, and f(x) is !strings.HasPrefix(x, "#").
+func commentPrefixLoop(cp *ssa.Function, lines ssa.Value, ia *ssa.IndexAddr, st *ssa.Store) bool {
+	/* The loop test i < n which dominates the store. */
+	var bound ssa.Value
+	for _, b := range cp.Blocks {
+		ifi := blockIf(b)
+		if nil == ifi {
+			continue
+		}
+		bo, ok := ifi.Cond.(*ssa.BinOp)
+		if !ok || token.LSS != bo.Op || bo.X != ia.Index {
+			continue
+		}
+		if edgeDominates(ifi, 0, st) {
+			bound = bo.Y
+		}
+	}
+	if nil == bound {
+		/* The rotated form of for i := range n: the body is entered
+		over "0 < n" and re-entered over "i+1 < n". */
+		ph, ok := ia.Index.(*ssa.Phi)
+		if !ok || ph.Block() != st.Block() && !ph.Block().Dominates(st.Block()) {
+			return false
+		}
+		var n ssa.Value
+		for k, e := range ph.Edges {
+			pred := ph.Block().Preds[k]
+			ifi := blockIf(pred)
+			if nil == ifi || pred.Succs[0] != ph.Block() {
+				return false
+			}
+			bo, ok := ifi.Cond.(*ssa.BinOp)
+			if !ok || token.LSS != bo.Op {
+				return false
+			}
+			if z, isC := constInt(e); isC && 0 == z {
+				if z2, isC2 := constInt(bo.X); !isC2 || 0 != z2 {
+					return false
+				}
+			} else if add, isAdd := e.(*ssa.BinOp); isAdd && token.ADD == add.Op && add.X == ssa.Value(ph) && bo.X == ssa.Value(add) {
+				if one, isC := constInt(add.Y); !isC || 1 != one {
+					return false
+				}
+			} else {
+				return false
+			}
+			if nil != n && n != bo.Y {
+				return false
+			}
+			n = bo.Y
+		}
+		if nil == n {
+			return false
+		}
+		return boundIsCommentRun(lines, n)
+	}
+	/* The index starts at 0 and steps by one. */
+	okIdx := false
+	if add, ok := ia.Index.(*ssa.BinOp); ok && token.ADD == add.Op {
+		if ph, ok := add.X.(*ssa.Phi); ok {
+			if one, ok := constInt(add.Y); ok && 1 == one {
+				for _, e := range ph.Edges {
+					if k, ok := constInt(e); ok && -1 == k {
+						okIdx = true
+					}
+				}
+			}
+		}
+	}
+	if ph, ok := ia.Index.(*ssa.Phi); ok {
+		for _, e := range ph.Edges {
+			if k, ok := constInt(e); ok && 0 == k {
+				okIdx = true
+			}
+		}
+	}
+	if !okIdx {
+		return false
+	}
+	return boundIsCommentRun(lines, bound)
+}
+
+// boundIsCommentRun: bound is slices.IndexFunc(lines, not-a-comment), or
+// len(lines) where that found nothing.
+func boundIsCommentRun(lines, bound ssa.Value) bool {
+	nIdx := 0
+	for _, l := range phiLeaves(bound) {
+		switch x := l.V.(type) {
+		case *ssa.Call:
+			name := calleeName(x.Common())
+			if bi, ok := x.Common().Value.(*ssa.Builtin); ok && "len" == bi.Name() && x.Common().Args[0] == lines {
+				continue
+			}
+			if !strings.HasPrefix(name, "slices.IndexFunc") || x.Common().Args[0] != lines {
+				return false
+			}
+			f, _ := closureOf(x.Common().Args[1])
+			if nil == f || !isNotCommentPredicate(f) {
+				return false
+			}
+			nIdx++
+		default:
+			return false
+		}
+	}
+	return 1 == nIdx
+}
+
+// isNotCommentPredicate: f(x) returns !strings.HasPrefix(x, "#") on every path.
+func isNotCommentPredicate(f *ssa.Function) bool {
+	if 1 != len(f.Params) {
+		return false
+	}
+	n, ok := 0, true
+	eachInstr(f, func(i ssa.Instruction) {
+		ret, isRet := i.(*ssa.Return)
+		if !isRet || 1 != len(ret.Results) {
+			return
+		}
+		n++
+		u, isNot := ret.Results[0].(*ssa.UnOp)
+		if !isNot || token.NOT != u.Op {
+			ok = false
+			return
+		}
+		c, isCall := u.X.(*ssa.Call)
+		if !isCall || "strings.HasPrefix" != calleeName(c.Common()) || c.Common().Args[0] != ssa.Value(f.Params[0]) {
+			ok = false
+			return
+		}
+		if pre, isC := constString(c.Common().Args[1]); !isC || "#" != pre {
+			ok = false
+		}
+	})
+	return ok && 1 == n
 }
